@@ -226,3 +226,175 @@ pub fn universe() -> Vec<Case> {
     }
     v
 }
+
+// ================================================================================================
+// The "fit" family: token-carrying pieces that a rewriter may fail to fit and a caller may then take
+// for absent (`None` = "does not fit" read as `None` = "there is none").  Small programs, one piece
+// each, with short / medium / long names, taken at EVERY max_width 20..=60 (plus a few wider ones):
+// whether a piece fits depends on the exact column, so no width is skipped here.
+// ================================================================================================
+
+/// Higher-ranked binders in every position.  `$B` the binder `for<..>`, `$Q` its parameter list alone,
+/// `$L` its first lifetime (without the quote).
+pub const BINDER_SHAPES: &[(&str, &str)] = &[
+    ("hr-alias-fn", "pub type Handler = $B fn(&'$L Conn, &'$L Req) -> bool;\n"),
+    ("hr-alias-fn-short", "pub type Probe = $B fn(u8);\n"),
+    ("hr-alias-fn-quals", "type U = $B unsafe extern \"C\" fn(&'$L u8) -> &'$L u8;\n"),
+    ("hr-field", "pub struct Server { pub on_request: Box<dyn $B Fn(&'$L Conn) -> bool>, pub probe: $B fn(u8), t: (u8, $B fn(&'$L u8)) }\n"),
+    ("hr-where", "pub fn register<F>(f: F) where F: $B Fn(&'$L Conn) -> bool, $B F: Send, $B &'$L F: Sync {}\n"),
+    ("hr-params", "pub fn takes(f: &dyn $B Fn(u8), g: impl $B Fn(u8), h: $B fn(&'$L u8)) -> impl $B Fn(&'$L u8) { h }\n"),
+    ("hr-bounds", "fn f<F: $B Fn(&'$L u8) + ?Sized, G: Send + $B Tr<'$L>>() {}\ntrait Q: $B Tr<'$L> { type X: $B Tr<'$L>; }\n"),
+    ("hr-impl", "impl<T> Tr for T where $B T: Fn(&'$L u8), T: $B Tr<'$L> {}\nimpl<T: $B Tr<'$L>> S<T> {}\n"),
+    ("hr-dyn", "type A = dyn $B Tr<'$L> + Send;\ntype C = Box<dyn $B FnMut(&'$L mut u8) + '_>;\ntype D = &'static (dyn $B Fn(&'$L u8) + Sync);\nstatic X: &dyn $B Fn(&'$L u8) = &|_| ();\n"),
+    ("hr-impl-trait", "type E = impl $B Tr<'$L>;\nfn r() -> impl $B Fn(&'$L u8) -> &'$L u8 { |x| x }\nfn a(x: impl $B Tr<'$L> + Send) {}\n"),
+    ("hr-closure", "fn c() { let k = $B |x: &'$L u8| -> &'$L u8 { x }; let m = $B move |x: &'$L u8| -> u8 { *x }; call($B |x: &'$L u8| -> u8 { *x }); }\n"),
+    ("hr-unsafe-binder", "fn u(x: unsafe<$Q> &'$L u8, y: unsafe<$Q> fn(&'$L u8)) {}\ntype V = unsafe<$Q> &'$L u8;\n"),
+    ("hr-nested", "type N = $B fn($B fn(&'$L u8)) -> Box<dyn $B Fn(&'$L u8)>;\nfn n<F>() where F: $B Fn($B fn(&'$L u8)) {}\n"),
+    ("hr-trait-items", "trait T { fn m<F: $B Fn(&'$L u8)>(&self, f: F) where $B F: Send; const C: $B fn(&'$L u8); type Y: $B Tr<'$L>; }\nimpl T for S { const C: $B fn(&'$L u8) = f; }\n"),
+    ("hr-expr-types", "fn e() { let a: $B fn(&'$L u8) = f; let b = x as $B fn(&'$L u8); let c = g::<$B fn(&'$L u8)>(); let d: &dyn $B Fn(&'$L u8) = &f; }\n"),
+];
+
+/// the lifetime lists of the binder variants: 1, 2, 3 lifetimes with names of 1, 4..6 and 10..13 characters
+pub fn binder_variants() -> Vec<(&'static str, Vec<&'static str>)> {
+    vec![
+        ("1s", vec!["a"]),
+        ("1m", vec!["conn"]),
+        ("1l", vec!["connection_lt"]),
+        ("2s", vec!["a", "b"]),
+        ("2m", vec!["conn", "reqst"]),
+        ("2l", vec!["connection", "request"]),
+        ("3s", vec!["a", "b", "c"]),
+        ("3m", vec!["conn", "reqst", "respon"]),
+        ("3l", vec!["connection", "request", "response_lt"]),
+    ]
+}
+
+/// One piece each.  `$L` a lifetime name (without the quote), `$I $J $K` identifiers, `$T $U $V` type / trait
+/// names, `$P` a path segment, `$S` an ABI string body.
+pub const PIECE_SHAPES: &[(&str, &str)] = &[
+    ("pc-generics-fn", "fn f<'$L, $T: $U + '$L, const $K: usize>(x: &'$L $T) {}\n"),
+    ("pc-generics-items", "struct A<'$L, $T: '$L>(&'$L $T);\nenum E<'$L, $T> { B(&'$L $T) }\ntrait Q<'$L, $T> {}\ntype Y<'$L, $T> = &'$L $T;\nunion N<'$L, $T: Copy> { a: &'$L $T }\n"),
+    ("pc-generics-impl", "impl<'$L, $T: $U> $V<'$L> for $T {}\nimpl<'$L, const $K: usize> A<'$L, $K> {}\n"),
+    ("pc-generics-defaults", "struct D<$T = $U, const $K: usize = 3>($T);\nfn g<$T: ?Sized>() {}\ntrait R<$T: $U = $V> {}\n"),
+    ("pc-where-fn", "fn f<$T>() where $T: $U + Send, $T::Item: '$L, {}\n"),
+    ("pc-where-items", "impl<$T> A<$T> where $T: $U {}\nstruct B<$T> where $T: $U;\nstruct C<$T> where $T: $U { x: $T }\ntrait Q where Self: $U {}\ntype Y<$T> where $T: $U = $T;\nenum E<$T> where $T: $U { V($T) }\n"),
+    ("pc-where-lifetimes", "fn f<'$L, 'b>() where '$L: 'b, 'b: '$L + 'static, &'$L u8: $U {}\n"),
+    ("pc-attr-items", "#[$I($J = \"v\")] fn f() {}\n#[$I] #[$J($K)] struct S;\n#[$I::$J] mod m {}\n#[cfg_attr($I, $J)] use a::b;\n"),
+    ("pc-attr-inner", "struct S { #[$I($J)] f: u8, #[$K] g: u8 }\nenum E { #[$I] A, #[$J($K)] B(#[$I] u8) }\nfn f(#[$I] x: u8, #[$J($K)] y: u8) {}\n"),
+    ("pc-attr-exprs", "fn f() { #[$I] let x = 1; #[$J($K)] g(); match x { #[$I] 1 => {} #[$J($K)] _ => {} } let s = S { #[$I] a: 1 }; let t = (#[$J] 1, 2); }\n"),
+    ("pc-attr-generics", "fn f<#[$I] 'a, #[$J($K)] $T, #[$I] const N: usize>() {}\nimpl<#[$I] $T> S<$T> {}\n"),
+    ("pc-abi", "extern \"$S\" fn f() {}\nunsafe extern \"$S\" { fn g(); }\ntype F = extern \"$S\" fn();\ntype G = unsafe extern \"$S\" fn(u8) -> u8;\nimpl A { pub extern \"$S\" fn h(&self) {} }\nextern \"$S\" {}\n"),
+    ("pc-labels", "fn f() { '$L: loop { break '$L; } '$L: while x { continue '$L; } '$L: for i in y { break '$L; } let v = '$L: { break '$L 1 }; '$L: while let Some(z) = w {} }\n"),
+    ("pc-dyn-impl", "fn f(x: &dyn $U, y: impl $U + '$L, z: Box<dyn $U + Send + '$L>) -> impl $U + '$L {}\ntype A = dyn $U;\ntype B = Box<dyn $U<$T> + '$L>;\nfn g(x: &mut dyn $U, y: *const dyn $U, z: &(dyn $U + Send)) {}\n"),
+    ("pc-quals", "const fn $I() {}\nasync fn $J() {}\nunsafe fn $K() {}\nconst async unsafe extern \"C\" fn $I() {}\npub const unsafe fn $J() {}\npub(crate) async unsafe fn $K() {}\nimpl A { default fn $I() {} pub default const unsafe fn $J() {} default async fn $K() {} }\n"),
+    ("pc-quals-items", "unsafe impl $U for A {}\nunsafe trait $U {}\nauto trait $V {}\npub unsafe auto trait $U {}\nimpl !$U for A {}\nimpl const $U for A {}\nunsafe mod $I {}\nunsafe extern \"C\" { safe fn $J(); unsafe fn $K(); safe static $I: u8; }\nstatic mut $J: u8 = 0;\n"),
+    ("pc-vis", "pub(in $P::$P::$P) fn f() {}\npub(in $P::$P) struct S { pub(in $P::$P) a: u8 }\npub(in $P::$P::$P) struct Z(pub(in $P::$P) u8);\npub(in $P) const C: u8 = 0;\npub(in $P::$P) static D: u8 = 0;\npub(in $P::$P) type Y = u8;\npub(in $P::$P) mod m {}\npub(in $P::$P) use a::b;\npub(in $P) trait Q {}\npub(in $P::$P) enum E {}\nimpl S { pub(in $P::$P) fn g(&self) {} pub(in $P) const K: u8 = 0; }\n"),
+    ("pc-refs", "fn f<'$L>(x: &'$L mut $T, y: &'$L $T, z: &'$L mut [&'$L $T]) -> &'$L mut $T { x }\nstruct S<'$L> { a: &'$L mut $T, b: Cow<'$L, $T>, c: *mut $T, d: *const $T }\nimpl<'$L> S<'$L> { fn m(&'$L self, w: &'$L mut self::$T) -> &'$L $T { w } fn n(self: &'$L mut Self) {} }\n"),
+    ("pc-use-capture", "fn f<'$L, $T>(x: &'$L $T) -> impl Sized + use<'$L, $T> { x }\nfn g<'$L>() -> impl use<'$L> + Sized {}\n"),
+    ("pc-patterns", "fn f() { let ref mut $I = x; let &mut ref mut $J = y; let $K @ Some(_) = z; let S { ref mut $I, $J: ref $K, .. } = s; let (mut $I, ref $J) = t; let [ref mut $K, ..] = u; if let Some(ref mut $I) = v {} match w { ref mut $J @ 1..=2 => {} &mut ref $K => {} } }\n"),
+    ("pc-params", "fn f(mut $I: $T, ref $J: $T, &mut $K: &mut $T, (mut a, ref mut b): ($T, $T)) {}\nfn g() { let c = |mut $I: $T, ref mut $J, &$K| (); }\n"),
+    ("pc-casts", "fn f() { let a = $I as *const $T as *mut $T; let b = &mut *$J as *mut $T as usize; let c = <$T as $U>::$K; let d = <&mut $T>::$I(); }\n"),
+    ("pc-let-else", "fn f() { let Some(mut $I) = $J else { return }; let Ok(ref $K) = $J else { panic!() }; }\n"),
+    ("pc-closure-quals", "fn f() { let c = async move |mut $I: &mut $T| -> $T { $I }; let d = move |$J| $J; let e = static move || { yield $K; }; let g = async || $I; let h = async move { $J }; let i = unsafe { $K }; let j = const { $I }; }\n"),
+    ("pc-assoc", "trait Q { type $T<'$L>: $U + '$L where Self: '$L; const $K: &'$L str; fn $I<'$L>(&'$L self) -> Self::$T<'$L>; }\nimpl Q for A { type $T<'$L> = &'$L u8 where Self: '$L; }\n"),
+    ("pc-macros", "macro_rules! $I { ($J:ident, $K:ty) => { unsafe fn $J() -> $K {} }; }\n$I!($J, mut $K);\nfn f() { $I!(ref mut $J, &mut $K); $J![mut $K; 2]; let x = $K!(unsafe { $I }); }\n"),
+    ("pc-uses", "extern crate $I as $J;\nuse $P::$I as $J;\nuse $P::{self as $K, $I as _};\npub use self::$P::*;\nuse ::$P::$I;\nuse super::super::$J;\nuse crate::$P::{$I, $J::{self, $K}};\n"),
+    ("pc-statics", "pub static mut $I: &'static $T = &$J;\npub const $K: &'static [&'static $T] = &[];\nstatic $J: $T = $T { $I: 1 };\nconst _: $T = $K;\n"),
+    ("pc-fn-ptr", "type F = unsafe extern \"C\" fn(*const $T, ...) -> !;\ntype G = fn(&mut $T, $U) -> &mut $T;\ntype H = extern fn($I: $T, _: $U);\nfn f(g: fn($T) -> $U, h: unsafe fn(*mut $T)) {}\n"),
+    ("pc-struct-lit", "fn f() { let s = $T { $I, $J: 1, ..$K }; let $T { ref mut $I, .. } = u; let v = $T::<$U> { $I: $J }; let w = $T { $I: $T { $J: $K } }; }\n"),
+    ("pc-ranges", "fn f() { let r = $I..=$J; let s = ..=$J; let t = $I..; let u = $I..$J; match x { $I..=$J => {} ..=$K => {} $I.. => {} _ => {} } let v = &$I[$J..]; }\n"),
+    ("pc-chains", "fn f() { let v = $I.$J()?.$K.await?.$I::<$T>()?; let w = $I?.$J?; let x = !$I.$J; let y = -*$K; let z = &&mut **$I; }\n"),
+    ("pc-turbofish", "fn f() { let a = $I::<$T>(); let b = $T::<$U>::$J::<{ 1 }, $V>(); let c = <$T>::$K; let d = $I.$J::<$T, $U>(); let e: $T<$U, { 2 }> = g(); }\n"),
+    ("pc-returns", "fn f() -> $T {}\nfn g() -> impl $U {}\nfn h() -> ! {}\nfn i() -> &'static mut $T {}\nfn j() -> Box<dyn $U> {}\nfn k() -> ($T, $U) {}\nfn l() -> [$T; 2] {}\nfn m() -> <$T as $U>::$V {}\n"),
+    ("pc-self-params", "impl A { fn a(&self) {} fn b(&mut self) {} fn c(mut self) {} fn d(self: Box<Self>) {} fn e<'$L>(&'$L self) {} fn g<'$L>(&'$L mut self) {} fn h(self: &mut Pin<&mut Self>) {} fn i(mut self: Box<Self>) {} }\n"),
+    ("pc-bounds-mods", "fn f<$T: ?Sized + ~const $U + const $V + ?$U + 'static>() {}\nfn g(x: impl ~const $U + ?Sized) {}\ntype A = dyn ?Sized + $U;\n"),
+    ("pc-keywords-exprs", "fn f() { return $I; }\nfn g() { loop { break $I; } }\nfn h() { loop { continue; } }\nfn i() { let a = move || $I; let b = &raw const $J; let c = &raw mut $K; let d = unsafe { $I }; let e = async { $J }; let g = gen { yield $K; }; let m = if let Some($I) = $J && let Ok($K) = $I { 1 } else { 2 }; }\n"),
+];
+
+pub fn piece_names(size: usize) -> Vec<(&'static str, &'static str)> {
+    match size {
+        0 => vec![("$L", "a"), ("$I", "i"), ("$J", "j"), ("$K", "k"), ("$T", "T"), ("$U", "U"), ("$V", "V"), ("$P", "p"), ("$S", "C")],
+        1 => vec![("$L", "lifetime"), ("$I", "identifi"), ("$J", "jdentifi"), ("$K", "kdentifi"), ("$T", "TypeName"), ("$U", "UraitNam"), ("$V", "VypeName"), ("$P", "pathsegm"), ("$S", "C-unwind")],
+        _ => vec![
+            ("$L", "lifetime_lifetime"),
+            ("$I", "identifier_identif"),
+            ("$J", "jdentifier_jdentif"),
+            ("$K", "kdentifier_kdenti"),
+            ("$T", "TypeNameTypeNameTy"),
+            ("$U", "UraitNameUraitNam"),
+            ("$V", "VypeNameVypeNameV"),
+            ("$P", "pathsegment_paths"),
+            ("$S", "system-unwind-abi-x"),
+        ],
+    }
+}
+
+/// every width 20..=60 and a few wider ones
+pub fn fit_widths() -> Vec<usize> {
+    let mut v: Vec<usize> = (20..=60).collect();
+    v.extend([66, 72, 80, 100]);
+    v
+}
+
+pub fn fit_options() -> Vec<Vec<(String, String)>> {
+    let s = |k: &str, v: &str| vec![(k.to_string(), v.to_string())];
+    let mut v = vec![
+        vec![],
+        s("brace_style", "AlwaysNextLine"),
+        s("where_single_line", "true"),
+        s("indent_style", "Visual"),
+        s("fn_params_layout", "Vertical"),
+        s("fn_params_layout", "Compressed"),
+        s("use_small_heuristics", "Max"),
+        s("use_small_heuristics", "Off"),
+        s("trailing_comma", "Never"),
+        s("type_punctuation_density", "Compressed"),
+        s("style_edition", "2015"),
+        s("tab_spaces", "2"),
+    ];
+    v.retain(|o| o.iter().all(|(k, val)| rustfmt_nightly::Config::is_valid_key_val(k, val)));
+    v
+}
+
+/// (name, text) of every instantiated fit shape
+pub fn fit_shapes() -> Vec<(String, String)> {
+    let mut v = vec![];
+    for (name, src) in BINDER_SHAPES {
+        for (vn, lts) in binder_variants() {
+            let q = lts.iter().map(|l| format!("'{}", l)).collect::<Vec<_>>().join(", ");
+            let text = src.replace("$B", &format!("for<{}>", q)).replace("$Q", &q).replace("$L", lts[0]);
+            v.push((format!("{}:{}", name, vn), text));
+        }
+    }
+    for (name, src) in PIECE_SHAPES {
+        for size in 0..3usize {
+            let mut text = src.to_string();
+            for (k, val) in piece_names(size) {
+                text = text.replace(k, val);
+            }
+            v.push((format!("{}:{}", name, ["s", "m", "l"][size]), text));
+        }
+    }
+    v
+}
+
+/// The fit universe, in a fixed order.  id = `fit:<shape>:<variant>:<context>|w<width>|<options or base>`
+pub fn fit_universe() -> Vec<Case> {
+    let opts = fit_options();
+    let widths = fit_widths();
+    let mut v = vec![];
+    for (name, body) in fit_shapes() {
+        let ctxs = vec![("plain", body.clone()), ("in-macro-def", format!("macro_rules! wrap {{\n    () => {{\n{}    }};\n}}\n", body)), ("in-mod", format!("mod outer {{ mod inner {{\n{}}} }}\n", body))];
+        for (cname, text) in ctxs {
+            for w in &widths {
+                for o in &opts {
+                    let mut cfg: Vec<(String, String)> = vec![("edition".into(), "2024".into()), ("style_edition".into(), "2024".into()), ("max_width".into(), w.to_string())];
+                    cfg = merge_cfg(&cfg, o);
+                    let oname = if o.is_empty() { "base".to_string() } else { cfg_text(o) };
+                    v.push(Case { id: format!("fit:{}:{}|w{}|{}", name, cname, w, oname), src: text.clone(), cfg });
+                }
+            }
+        }
+    }
+    v
+}
